@@ -285,7 +285,7 @@ class Tx(BaseTx):
         else:
             refs: set[tuple[bytes, int]] = set()
             for tx_in in self.txs_in:
-                if tx_in.previous_hash == ZERO32:
+                if tx_in.is_coinbase():
                     raise ValidationFailureError("prevout is null")
                 pair = (tx_in.previous_hash, tx_in.previous_index)
                 if pair in refs:
